@@ -214,15 +214,15 @@ package compile
 // Walk hands every module path to the callback at most once (C07: a file reached
 // through several include paths is compiled/visited once, keyed by its path).
 //@ paramcontract (*Module).Walk.f
-//@   requires arg0 != nil && !walkSeen(nil)[arg0.ThriftPath]
-//@   modifies all, walkSeen(nil)
-//@   ensures walkSeen(nil) == setadd(old(walkSeen(nil)), old(arg0.ThriftPath))
+//@   requires arg0 != nil && !walkSeen(visited)[arg0.ThriftPath]
+//@   modifies all, walkSeen(visited)
+//@   ensures walkSeen(visited) == setadd(old(walkSeen(visited)), old(arg0.ThriftPath))
 
 //@ contract (*Module).Walk
 //@   props C07
-//@   requires m != nil && forall(k, Str, !walkSeen(nil)[k])
-//@   modifies all, walkSeen(nil)
-//@   loop 1: invariant visited != nil && forall(k, Str, walkSeen(nil)[k] ==> has(visited, k))
+//@   requires m != nil
+//@   modifies all
+//@   loop 1: invariant visited != nil && fresh(visited) && forall(k, Str, walkSeen(visited)[k] ==> has(visited, k))
 
 //@ contract (typeCycleFinder).visited
 //@   props C08
